@@ -198,17 +198,19 @@ def run_shard(desc, tier):
             # in its last 12 bytes, and byte by byte
             short = body[:-2]
             extra = [[short], [short[i:i + 1] for i in range(len(short))]] + [[short[:len(short) - k], short[len(short) - k:]] for k in range(1, min(12, len(short)))]
-        for chunks in itertools.chain(MP.helper_chunkings(body, two), extra):
+        exact = {"max_form_parts": len(parts), "max_form_memory_size": sum(len(p_["content"]) for p_ in parts if p_["filename"] is None)}
+        for ci, chunks in enumerate(itertools.chain(MP.helper_chunkings(body, two), extra)):
             r.count("evaluations")
             r.count("traces")
             r.count("transitions", len(chunks))
             try:
-                got = fn(chunks, boundary, charset)
+                # (every other chunking with the limits set to exactly what the form holds: limits that are met change nothing)
+                got = fn(chunks, boundary, charset, **exact) if ci % 2 and path in ("parse_stream", "parse_async_stream") else fn(chunks, boundary, charset)
             except Exception as e:  # noqa
                 got = ("raised", type(e).__name__, str(e)[:100])
             if got != want:
                 r.violation(f"helper:{path}:{'exception' if got and got[0] == 'raised' else 'wrong-form'}",
-                            {"mode": "helper", "path": path, "form": fi, "chunks": [len(x) for x in chunks]},
+                            {"mode": "helper", "path": path, "form": fi, "chunks": [len(x) for x in chunks], "exact_limits": bool(ci % 2 and path in ("parse_stream", "parse_async_stream"))},
                             f"{path} on form #{fi} ({len(body)} bytes) in chunks {[len(x) for x in chunks][:12]}: got {got!r:.300} expected {want!r:.300}")
         r.count("states", 1)
         if parts:
@@ -302,8 +304,9 @@ def replay(w):
     for n in w["chunks"]:
         chunks.append(body[pos:pos + n])
         pos += n
+    exact = {"max_form_parts": len(parts), "max_form_memory_size": sum(len(p_["content"]) for p_ in parts if p_["filename"] is None)} if w.get("exact_limits") else {}
     try:
-        got = MP.PATHS[w["path"]](chunks, boundary, charset)
+        got = MP.PATHS[w["path"]](chunks, boundary, charset, **exact)
     except Exception as e:  # noqa
         got = ("raised", type(e).__name__, str(e)[:100])
     return got != MR.expected_items(parts, enc), {"got": got}
